@@ -31,7 +31,7 @@ use std::time::Duration;
 pub static INFO: PropInfo = PropInfo {
     id: "C10",
     level: "exploration",
-    rule: "one evaluation = one run against a fresh secure server with max_clients 1..4, 2..6 identities (1..3 tokens each, same id / different user data and keys) and 2..6 source addresses, all handshakes hand-driven through the crate's codec: first the scripted situations (two half-open sessions for one id answered in both orders; one address presenting several tokens; k handshakes racing for the last free slot with responses in seeded order; responses echoing the challenge of another half-open session; a full server receiving complete fresh handshakes; set_max_clients raised and the new slots used), then 80..400 seeded operations (request, matching or cross response, client disconnect packet from the right or a wrong address, server disconnect, time steps of 10 ms..3 s with update_client on every id so that 2 s / 5 s timeouts fire - in a third of them a connection request (preferably another token of a connected id, from another address) is processed after the clock advanced and before the sweep, the order the transport works in -, keep-alive payloads, replays of any earlier datagram from its own or another address, re-minted tokens, set_max_clients raised; lowered only in the runs that do not assert the capacity clause). After EVERY call the connection-table model fed by the ServerResults is compared with clients_id / connected_clients / client_addr / user_data / is_client_connected, and sessions are probed with payloads in both directions (sealed under the keys of the token the session was created from). Non-trivial = the run saw at least 2 simultaneously connected clients (or max_clients = 1), at least one disconnect and at least one refused handshake at a full server; distinct = distinct fingerprints of the (operation, result kind, table) history.",
+    rule: "one evaluation = one run against a fresh secure server with max_clients 1..4, 2..6 identities (1..3 tokens each, same id / different user data and keys) and 2..6 source addresses, all handshakes hand-driven through the crate's codec: first the scripted situations (two half-open sessions for one id answered in both orders; one address presenting several tokens; k handshakes racing for the last free slot with responses in seeded order; responses echoing the challenge of another half-open session; a full server receiving complete fresh handshakes; set_max_clients raised and the new slots used), then 80..400 seeded operations (request, matching or cross response, client disconnect packet from the right or a wrong address, server disconnect, time steps of 10 ms..3 s with update_client on every id so that 2 s / 5 s timeouts fire - in a third of them a connection request (preferably another token of a connected id, from another address) is processed after the clock advanced and before the sweep, the order the transport works in -, keep-alive payloads, replays of any earlier datagram from its own or another address, re-minted tokens, set_max_clients raised; lowered only in the runs that do not assert the capacity clause). After EVERY call the connection-table model fed by the ServerResults is compared with clients_id / connected_clients / client_addr / user_data / is_client_connected, and sessions are probed with payloads in both directions (sealed under the keys of the token the session was created from). Client addresses include IPv6 link-local sources with scope ids / flow labels (the same ip and port under two scope ids are two addresses) and IPv4-mapped sources. Non-trivial = the run saw at least 2 simultaneously connected clients (or max_clients = 1), at least one disconnect and at least one refused handshake at a full server; distinct = distinct fingerprints of the (operation, result kind, table) history.",
     assumptions: &[
         "the capacity clause is asserted only in runs that never lower the limit (as the statement says)",
         "clients_id() is expected to equal the set {ClientConnected reported, ClientDisconnected not yet reported} after every call",
@@ -477,7 +477,20 @@ pub fn one_run(ctx: &Ctx, out: &mut Outcome, run_seed: u64) {
     let nad = r.urange(2, 6);
     let ids: Vec<u64> = (0..nid).map(|i| 500 + 10 * i as u64 + r.below(10)).collect();
     for i in 0..nad {
-        w.addrs.push(if r.chance(1, 5) { addr6(i as u16 + 1, 7000) } else { addr4(3, i as u8, 6000 + r.below(3) as u16) });
+        // special forms: link-local IPv6 sources carry a scope id (sometimes a flow label) - the same ip and port under
+        // two scope ids are two addresses -, and a dual-stack socket reports IPv4 peers in IPv4-mapped form
+        let special = r.below(12);
+        w.addrs.push(if special == 0 {
+            let ip = std::net::Ipv6Addr::new(0xfe80, 0, 0, 0, 0, 0, 0, 1 + r.below(2) as u16);
+            let flow = if r.chance(1, 4) { r.range(1, 9) as u32 } else { 0 };
+            SocketAddr::V6(std::net::SocketAddrV6::new(ip, 7000, flow, r.range(1, 3) as u32))
+        } else if special == 1 {
+            SocketAddr::new(std::net::IpAddr::V6(std::net::Ipv4Addr::new(3, 3, i as u8, 1).to_ipv6_mapped()), 6000)
+        } else if r.chance(1, 5) {
+            addr6(i as u16 + 1, 7000)
+        } else {
+            addr4(3, i as u8, 6000 + r.below(3) as u16)
+        });
     }
     w.addrs.sort();
     w.addrs.dedup();
